@@ -341,3 +341,14 @@ func (m *Map) Range(f func(key, value any) bool) {
 		}
 	}
 }
+
+// VerifSnapshot returns keys and values in insertion order without a scheduling point.
+func (m *Map) VerifSnapshot() (keys []any, vals []any) {
+	for _, k := range m.keys {
+		if v, ok := m.m[k]; ok {
+			keys = append(keys, k)
+			vals = append(vals, v)
+		}
+	}
+	return
+}
